@@ -955,15 +955,27 @@ fn c07_case(ctx: &Ctx, st: &mut C07Stats, path: &[Vec<u8>], multi: bool, raw0: &
     }
     // read-only views refuse writes and leave the store unchanged
     if ops.is_empty() {
-        for w in 0..2 {
+        // (w = 2, 3: every entry the view shows is written again with its own value, and removed -
+        // a write that would change nothing is a write all the same)
+        let shown: Vec<(Vec<u8>, Vec<u8>)> = view(&app, path, multi).range(None, None, Order::Ascending).collect();
+        for w in 0..4 {
+            if w >= 2 && shown.is_empty() {
+                continue;
+            }
             st.evals += 1;
             let before = app.storage().data.clone();
             let r = catch(|| {
                 let mut v = view(&app, path, multi);
-                if w == 0 {
-                    v.set(b"k", b"x");
-                } else {
-                    v.remove(b"k");
+                match w {
+                    0 => v.set(b"k", b"x"),
+                    1 => v.remove(b"k"),
+                    2 => {
+                        // all of them must be refused: stop at the first one that is
+                        for (k, val) in &shown {
+                            v.set(k, val);
+                        }
+                    }
+                    _ => v.remove(&shown[0].0),
                 }
             });
             let after = &app.storage().data;
